@@ -214,3 +214,64 @@ def check_module_state(mods):
                     bad.append(f"{q} line {n.lineno}: mutates module-level {n.func.value.id}")
         res.append({"name": f"{mod.split('.', 1)[1]}/no-module-level-state-written", "status": "refuted" if bad else "discharged", "reason": "; ".join(bad) or None})
     return res
+
+
+def check_option_forwarding(quals, prop, skip=("self", "data", "prior_samples", "joker_samples"), must_flow=()):
+    """The public entry points hand their options to the helper that does the work: for every call from a listed method to a repository function,
+    every option of the method that the callee ALSO accepts under the same name must be passed on, as an expression that mentions the option
+    (so `max_posterior_samples=max_posterior_samples`, or a value computed from it, but not a constant and not nothing).
+    One obligation per (method, callee, option)."""
+    res = []
+    sigs = repo_signatures()
+    for qual in quals:
+        fs = extract.locate(qual)
+        fn = fs.node
+        opts = [a.arg for a in fn.args.args + fn.args.kwonlyargs if a.arg not in skip]
+        # names assigned from an option inside the method still carry it (prior_samples = prior_samples[:n_prior_samples] etc.)
+        carries = {o: {o} for o in opts}
+        for n in ast.walk(fn):
+            if isinstance(n, ast.Assign) and len(n.targets) == 1 and isinstance(n.targets[0], ast.Name):
+                used = {x.id for x in ast.walk(n.value) if isinstance(x, ast.Name)}
+                for o in opts:
+                    if used & carries[o]:
+                        carries[o].add(n.targets[0].id)
+        for n in ast.walk(fn):
+            if not isinstance(n, ast.Call):
+                continue
+            d = dotted(n.func)
+            if d is None:
+                continue
+            short = d.split(".")[-1]
+            cands = [c for c in sigs.get(short, []) if not c[0].endswith("." + qual.split(".")[-1])]
+            if not cands or short in ("__init__",):
+                continue
+            cq, params, cnode = cands[0]
+            is_method = bool(params) and params[0] in ("self", "cls")
+            for (o, callee, into) in must_flow:
+                # an option the callee does not take by name but that the property requires it to honour: it must flow into one of the
+                # call's arguments (e.g. the library is cut down to the first n rows before it is handed over)
+                if callee == short and o in opts and o not in params:
+                    ki = params.index(into) - (1 if (bool(params) and params[0] in ("self", "cls") and isinstance(n.func, ast.Attribute)) else 0)
+                    arg_ = next((kw.value for kw in n.keywords if kw.arg == into), n.args[ki] if 0 <= ki < len(n.args) else None)
+                    used = {x.id for x in ast.walk(arg_) if isinstance(x, ast.Name)} if arg_ is not None else set()
+                    ok = bool(used & carries[o])
+                    res.append({"name": f"{prop}/effects/{qual.split('.', 1)[1]}/option-{o}-limits-what-{short}-is-given@{n.lineno}",
+                                "status": "discharged" if ok else "refuted",
+                                "reason": None if ok else f"{os.path.relpath(fs.path, extract.REPO)}:{n.lineno} the `{into}` argument of {short}(...) does not depend on the caller's option `{o}`"})
+            for o in opts:
+                if o not in params:
+                    continue
+                k = params.index(o) - (1 if is_method and isinstance(n.func, ast.Attribute) else 0)
+                arg = None
+                for kw in n.keywords:
+                    if kw.arg == o:
+                        arg = kw.value
+                star = any(kw.arg is None for kw in n.keywords)
+                if arg is None and 0 <= k < len(n.args):
+                    arg = n.args[k]
+                ok = star or (arg is not None and bool({x.id for x in ast.walk(arg) if isinstance(x, ast.Name)} & carries[o]))
+                res.append({"name": f"{prop}/effects/{qual.split('.', 1)[1]}/option-{o}-reaches-{short}@{n.lineno}",
+                            "status": "discharged" if ok else "refuted",
+                            "reason": None if ok else f"{os.path.relpath(fs.path, extract.REPO)}:{n.lineno} {short}(...) is called without the caller's option "
+                                                      f"`{o}` ({o}={ast.unparse(arg) if arg is not None else '<missing: the callee default is used>'})"})
+    return res
